@@ -555,6 +555,66 @@ func ifaceStage(c *vk.Ctx) {
 	}
 }
 
+//go:noinline
+func varTarget(p string, xs ...int) int {
+	if len(xs) > 1<<20 {
+		return -1
+	}
+	return len(p) + len(xs) + 70
+}
+
+// variadicStage: one variadic function steadily mocked with conditions; callers on several
+// goroutines pass different argument lists at the same time (each call must get the result of
+// its own condition) while another builder re-stubs and resets a disjoint function.
+func variadicStage(c *vk.Ctx) {
+	b0 := mocker.Create()
+	b0.Func(varTarget).Return(1000).When("a", 1, 2).Return(1012).When("b", 3).Return(1003).When("c").Return(1099)
+	calls := []struct {
+		p    string
+		xs   []int
+		want int
+	}{{"a", []int{1, 2}, 1012}, {"b", []int{3}, 1003}, {"c", nil, 1099}, {"z", []int{9, 9, 9}, 1000}}
+	var wg sync.WaitGroup
+	start := make(chan struct{})
+	fails := make([]string, 6)
+	for g := 0; g < 6; g++ {
+		g := g
+		wg.Add(1)
+		go func() {
+			defer wg.Done()
+			growStack(48)
+			<-start
+			for r := 0; r < 3000; r++ {
+				cl := calls[(g+r)%len(calls)]
+				if got := varTarget(cl.p, cl.xs...); got != cl.want && fails[g] == "" {
+					fails[g] = fmt.Sprintf("caller %d: varTarget(%q,%v...) returned %d, the condition it selects returns %d", g, cl.p, cl.xs, got, cl.want)
+				}
+			}
+		}()
+	}
+	wg.Add(1)
+	go func() {
+		defer wg.Done()
+		growStack(48)
+		<-start
+		var out []obs
+		for r := 0; r < 20; r++ {
+			mockerBody(targets["F4"], &out, func(string) {})
+		}
+	}()
+	close(start)
+	wg.Wait()
+	b0.Reset()
+	c.Res.Evaluations++
+	c.Res.Traces++
+	for _, f := range fails {
+		if f != "" {
+			c.Violate("race class=variadic-wrong-result", "free-running pass (6 callers of one steadily mocked variadic function): "+f, Case{Sub: "race"})
+			break
+		}
+	}
+}
+
 // byName: independent builders mock disjoint unexported functions by name, all at once.
 func byName(c *vk.Ctx) {
 	privs := []func(int) int{priv0, priv1, priv2, priv3, priv4, priv5, priv6, priv7}
@@ -607,6 +667,7 @@ func race(c *vk.Ctx) {
 	c.Note(`{"__key":"race free-running pass","case":{"sub":"race"}}`)
 	byName(c)
 	ifaceStage(c)
+	variadicStage(c)
 	for _, nm := range []int{2, 4, 8} {
 		for _, nc := range []int{2, 8} {
 			for r := 0; r < rounds; r++ {
